@@ -474,7 +474,8 @@ func c18(r *h.Result, rng *h.Rng, tier string, replay string) error {
 	defer c18SetPrefix(nil)
 	r.Rule = "a case = one schedule (mode, optional older-release start state, failure points (call number, applied or not)) followed by two clean starts; " +
 		"real InitDBTry+Update on the fake connection vs the Lean model, compared per start on (status, calls issued, database state); " +
-		"non-trivial = at least one start actually stopped at its failure point; distinct by schedule"
+		"non-trivial = at least one start actually stopped at its failure point; distinct by schedule. " +
+		"cluster-* streams: a case = (mode, N nodes, parameter instance, optional older release, starts each with its connection and failure point (call, set of nodes it still took effect on, kill/error)) followed by two uninterrupted starts; real InitDBTry+Update (ctrl-init: the real ctrl.Init through a ConnectV2 build overlay) on the fake cluster vs the Lean cluster model, compared per start on (status, calls that reached a node, per-node catalogue and ver rows)"
 
 	if replay != "" {
 		b, err := os.ReadFile(replay)
